@@ -292,7 +292,7 @@ def run_property(prop, tier, seed, only=None, verbose=True):
                 to = (s.timeout if fn == "main" else s.cover_timeout) * scale
                 jid = "%d:%s" % (i, fn)
                 jobs.append({"id": jid, "file": path, "fns": [fn], "timeout": to, "timeouts": [to],
-                             "opaque": s.opaque})
+                             "opaque": s.opaque, "real_lru_cache": bool(s.meta.get("real_lru_cache"))})
                 by_id[jid] = (s, fn)
         done = [0]
 
@@ -396,7 +396,7 @@ def run_property(prop, tier, seed, only=None, verbose=True):
         extra_cov = {}
         extra_checks = getattr(mod, "extra_checks", None)
         if extra_checks and not only:
-            x = extra_checks(tier, seed, replay_dir)
+            x = extra_checks(tier, seed, replay_dir, active_ids)
             obligations += x["obligations"]
             discharged += x["discharged"]
             transitions += x.get("queries", 0)
